@@ -540,3 +540,71 @@ func (r *Region) SuccessReturns() []retVals {
 	visit(r.Root, 0)
 	return out
 }
+
+// OnlyThrough: every path (through the inlined program) from d to u crosses
+// one of edges.  d and the edges may live in a helper: then the helper must not
+// be able to return success after d without crossing them, every caller in
+// between must only succeed when its callee did, and u must be reached only
+// when the outermost call reported no error.
+func (r *Region) OnlyThrough(d, u ssa.Instruction, edges []Edge) bool {
+	cd := r.chain(d)
+	lu := r.Lift(u)
+	if cd == nil || lu == nil || len(edges) == 0 {
+		return false
+	}
+	if len(cd) == 1 {
+		hit, _ := reach(siteOf(d), isInstr(lu), newCuts().addEdges(edges))
+		return !hit
+	}
+	cur := edges
+	for k := len(cd) - 1; k >= 1; k-- {
+		h := cd[k].Parent()
+		var pf *pathFacts
+		bad := false
+		reach(siteOf(cd[k]), func(x ssa.Instruction) bool {
+			ret, isRet := x.(*ssa.Return)
+			if !isRet {
+				return false
+			}
+			vals := returnValues(ret)
+			if len(vals) == 0 {
+				bad = true
+				return false
+			}
+			last := vals[len(vals)-1]
+			if !isErrorType(last.Type()) {
+				bad = true
+				return false
+			}
+			if definitelyNonNilError(last, nil) {
+				return false
+			}
+			if pf == nil {
+				pf = newPathFacts(h)
+			}
+			if st := pf.At(ret); st == nil || st.knownNonNil(last) {
+				return false
+			}
+			bad = true
+			return false
+		}, newCuts().addEdges(cur))
+		if bad {
+			return false
+		}
+		call, isCall := cd[k-1].(*ssa.Call)
+		if !isCall {
+			return false
+		}
+		e, has := errResult(call)
+		if !has || e == nil {
+			return false
+		}
+		isNil, _ := nilTestEdges(e)
+		if len(isNil) == 0 {
+			return false
+		}
+		cur = isNil
+	}
+	hit, _ := reach(siteOf(cd[0]), isInstr(lu), newCuts().addEdges(cur))
+	return !hit
+}
